@@ -323,6 +323,9 @@ class Expr2Mixin:
             return Iterable_(z3.simplify(n), lambda k: VTuple(tuple(i.at(k) for i in its)))
         if isinstance(v, VGroups):
             return Iterable_(v.G, lambda g: VTuple((v.key_at(g), v.group_at(g))))
+        from .builtins_ import VZipLongest
+        if isinstance(v, VZipLongest):
+            return Iterable_(v.M, lambda k: v.at(k))
         if isinstance(v, VIter):
             l, pos = st.iters[v.iid]
             return Iterable_(z3.simplify(l.n - pos), lambda k: l.at(z3.simplify(pos + k)))
